@@ -169,6 +169,19 @@ pub fn gen_dt(rng: &mut Rng) -> Dt {
 }
 
 pub fn gen_ip(rng: &mut Rng) -> IpAddr {
+	// special forms: IPv4-mapped and IPv4-compatible IPv6, unspecified, loopback, broadcast
+	if rng.chance(1, 4) {
+		let v4 = rng.next() as u32;
+		return match rng.below(7) {
+			0 => IpAddr::V6(Ipv4Addr::from(v4).to_ipv6_mapped()),
+			1 => IpAddr::V6(Ipv6Addr::from(v4 as u128)),
+			2 => IpAddr::V6(Ipv6Addr::UNSPECIFIED),
+			3 => IpAddr::V6(Ipv6Addr::LOCALHOST),
+			4 => IpAddr::V4(Ipv4Addr::UNSPECIFIED),
+			5 => IpAddr::V4(Ipv4Addr::BROADCAST),
+			_ => IpAddr::V6(Ipv6Addr::from(0x0064_ff9b_0000_0000_0000_0000_0000_0000u128 | v4 as u128)),
+		};
+	}
 	if rng.chance(1, 2) {
 		IpAddr::V4(Ipv4Addr::from(rng.next() as u32))
 	} else {
